@@ -119,7 +119,7 @@ BYTE_SLACK = 128 * 1024  # bytes
 def footprint(run, shapes, n):
     path = os.path.join(run.work, 'shapes.json')
     json.dump(shapes, open(path, 'w'))
-    src = FOOTPRINT_SRC % {'verif': os.path.dirname(os.path.dirname(os.path.abspath(__file__))), 'shapes': path, 'warm': 1500, 'n': n}
+    src = FOOTPRINT_SRC % {'verif': os.path.dirname(os.path.dirname(os.path.abspath(__file__))), 'shapes': path, 'warm': 1000, 'n': n}
     p = subprocess.run([sys.executable, '-c', src], stdout=subprocess.PIPE, stderr=subprocess.PIPE, text=True,
                        env=dict(os.environ, PYTHONHASHSEED='0'), timeout=1200)
     if p.returncode != 0:
@@ -151,7 +151,7 @@ def run(run):
         if rb.violated != inv:
             raise xl.MachineryError(f'design variant {bad} was not rejected by TLC ({inv})')
         run.laws[f'variant {bad} rejected'] = rb.violated
-    maxlen = 4 if quick else 5
+    maxlen = 3 if quick else 4
     r = run.tlc('MC_C04', 'C05_cases.cfg' if quick else 'C05_cases_thorough.cfg', dump=True, timeout=1800)
     blocks = [b for b in pool.dump_blocks(r.dump) if b.count('op |->') >= maxlen + 1]
     # schedules that also change an input in between (two evaluators, one model)
@@ -169,7 +169,8 @@ def run(run):
         for d in res['dis']:
             run.disagree('schedule', d['case'], d['exp'], d['obs'], d['features'], clause=d['clause'])
     run.notes['schedules_by_shape'] = shapes_n
-    footprint(run, shapes, 3000 if quick else 20000)
+    fshapes = {k: v for k, v in shapes.items() if not quick or k in ('chain', 'range', 'kinds', 'twin')}
+    footprint(run, fshapes, 2000 if quick else 20000)
     run.rule = (f'all schedules (permutations with repetition) of length {maxlen} of Evaluate(evaluator in {{1,2}}, cell) on 5 model shapes, '
                 'plus all length-3 interleavings with Set(input); responses compared with the specification (hence with each other); '
                 'constants / formula texts / names / cell set snapshotted before and after every evaluation; footprint: gc-object and '
